@@ -196,6 +196,83 @@ fn cmd_tokens(c: &Cmd) -> String {
     }
 }
 
+/// Tool level: an automatic checkpoint precedes every file-editing tool and undoes the edit.
+fn auto_checkpoint_cases(rep: &mut Report, rng: &mut Rng, n: u64) {
+    use rip_kernel::EventKind;
+    use rip_tools::{register_builtin_tools, BuiltinToolConfig, ToolInvocation, ToolRegistry, ToolRunner};
+    use std::sync::Arc;
+    let rt = tokio::runtime::Builder::new_multi_thread().worker_threads(2).enable_all().build().unwrap();
+    let start = std::env::current_dir().unwrap();
+    for i in 0..n {
+        let scratch = Scratch::new("c14t");
+        let root = scratch.path().join("ws");
+        std::fs::create_dir_all(&root).unwrap();
+        let ws = gen_ws(rng);
+        materialize(&ws, &root);
+        let other = scratch.path().join("elsewhere");
+        std::fs::create_dir_all(&other).unwrap();
+        let cwd_root = i % 2 == 0;
+        std::env::set_current_dir(if cwd_root { &root } else { &other }).unwrap();
+        let registry = Arc::new(ToolRegistry::default());
+        register_builtin_tools(&registry, BuiltinToolConfig { workspace_root: root.clone(), ..BuiltinToolConfig::default() });
+        let hook = ripd::verif_export::WorkspaceCheckpointHook::new(root.clone()).unwrap();
+        let runner = ToolRunner::with_checkpoint_hook(registry, 2, Arc::new(hook));
+        let (before, _) = list_tree(&root);
+        let inv = if rng.chance(1, 2) || ws.patch.is_empty() {
+            let p = if !ws.files.is_empty() && rng.chance(2, 3) { rng.pick(&ws.files).0.clone() } else { rel_path(rng) };
+            ToolInvocation {
+                name: "write".into(),
+                args: json!({"path": p, "content": "edited", "append": rng.chance(1, 4), "atomic": rng.chance(1, 2)}),
+                timeout_ms: None,
+            }
+        } else {
+            ToolInvocation { name: "apply_patch".into(), args: json!({"patch": ws.patch}), timeout_ms: None }
+        };
+        let case = json!({"tool": inv.name, "args": inv.args, "files": ws.files.iter().map(|f| f.0.clone()).collect::<Vec<_>>(), "dirs": ws.dirs, "cwd": if cwd_root {"root"} else {"elsewhere"}});
+        let mut seq = 0u64;
+        let events = rt.block_on(runner.run("s", &mut seq, inv));
+        rep.evaluations += 1;
+        let started_at = events.iter().position(|e| matches!(e.kind, EventKind::ToolStarted { .. }));
+        let ck = events.iter().enumerate().find_map(|(i, e)| match &e.kind {
+            EventKind::CheckpointCreated { checkpoint_id, auto: true, .. } => Some((i, checkpoint_id.clone())),
+            _ => None,
+        });
+        let (after, _) = list_tree(&root);
+        let changed = after != before;
+        match (&ck, started_at) {
+            (Some((ci, id)), Some(si)) => {
+                if ci > &si {
+                    rep.oracle_failure("C14|auto-checkpoint-after-start", "checkpoint_created follows tool_started", case.clone());
+                }
+                let mut seq2 = seq;
+                let ev = runner.rewind_checkpoint("s", &mut seq2, id);
+                let ok = ev.iter().any(|e| matches!(e.kind, EventKind::CheckpointRewound { .. }));
+                let (restored, _) = list_tree(&root);
+                if ok && restored != before {
+                    let diff: Vec<&String> = before.keys().chain(restored.keys()).filter(|k| before.get(*k) != restored.get(*k)).collect();
+                    rep.oracle_failure("C14|auto-checkpoint-does-not-undo", &format!("rewinding the automatic checkpoint does not restore {diff:?}"), case.clone());
+                }
+                if !ok && changed {
+                    rep.count("auto_rewind_failed_after_change");
+                }
+                rep.count("auto_checkpoint_taken");
+            }
+            (None, _) => {
+                if changed {
+                    rep.oracle_failure("C14|edit-without-auto-checkpoint", "the tool changed files but no automatic checkpoint was taken", case.clone());
+                }
+                rep.count("auto_checkpoint_refused_or_failed");
+            }
+            _ => {}
+        }
+        if changed {
+            rep.count("tool_changed_files");
+            rep.nontrivial_case(&case.to_string());
+        }
+        std::env::set_current_dir(&start).unwrap();
+    }
+}
+
 pub fn run(opts: &Opts) -> Report {
     let mut rep = Report::new(
         "C14",
@@ -204,6 +281,7 @@ pub fn run(opts: &Opts) -> Report {
     let mut model = Model::spawn();
     let mut rng = Rng::new(opts.seed);
     let n = if opts.thorough { 30_000 } else { 2_500 } * opts.scale;
+    auto_checkpoint_cases(&mut rep, &mut rng, n / 3);
     for i in 0..n {
         let scratch = Scratch::new("c14");
         let root = scratch.path().join("ws");
